@@ -125,3 +125,9 @@ CASES += [
       "                ret = numpy.zeros(val.shape,\n                                  dtype=numpy.result_type(val.dtype, float))",
       "                ret = numpy.zeros(val.shape, dtype=numpy.float64)", 2),
 ]
+
+CASES += [
+    {"name": "mode energy converted once and kept", "kind": "mutant", "rule": "C05-U12", "edits": [
+        ("quantarhei/builders/modes.py", "            return self.convert_energy_2_current_u(self.submodes[N].omega)",
+         "            if getattr(self, \"_en_conv\", None) is None:\n                self._en_conv = self.convert_energy_2_current_u(self.submodes[N].omega)\n            return self._en_conv", 1)]},
+]
